@@ -31,6 +31,12 @@ Notes:
     against a server presenting it (revhs).  After the first refresh returned, any answer but REVOKED_AND_AUTHENTICATED /
     any completed handshake is c20:crl-status-not-serializable:<query|handshake-with-revoked-certificate>: no order of
     refreshes and validations explains it, and there is no data race for TSan to see (seeded regression C20b).
+  * The shared server key set has a session-ticket callback (matrixSslSetSessionTicketCallback).  The library releases
+    g_sessTicketLock around it; the harness callback records (key name, cached flag), lingers there, and the rotator aims
+    its deletes (+ immediate load of a new key) at the key a resumption inside the callback was told is cached, retrying a
+    refused delete while anybody is still inside.  Rules: cached=1 => the resumption must happen
+    (c20:ticket-callback-approved-but-not-resumed); cached=0 => it must not; a delete of a live key may fail only while
+    a resumption that was told "cached" overlaps it (seeded regression C20c, and the in-use FLAG-not-count defect).
   * VERIF_C20_RUNS=<n> (development aid) truncates the run plan."""
 import glob, hashlib, json, os, re, shutil, subprocess, sys, time
 import vflib
@@ -350,6 +356,14 @@ def check_history(h, res, replay, pairs, samples):
     del_by_name = {}
     for d in dels:
         del_by_name.setdefault(d["name"], []).append(d)
+    del_ok_or_refused = {}
+    for d in ops:
+        if d["k"] == "tkdel" and d["expect"] == 0:
+            del_ok_or_refused.setdefault(d["name"], []).append(d)
+    approved = {}   # key name -> handshakes whose ticket callback was told "cached" (the key is pinned while they are inside)
+    for o in hs:
+        if o.get("tcb") and o["tcb_cached"]:
+            approved.setdefault(o["tcb_key"], []).append(o)
     # issuers: first operation after which a client held the credential without having offered it
     issuer = {}
     for o in hs:
@@ -400,6 +414,21 @@ def check_history(h, res, replay, pairs, samples):
             st("abandoned", 1)
             continue
 
+        # ---- ticket callback (server key set has one registered): asked with cached=1 means the library found the key and pinned
+        # it for this handshake before releasing the lock.  The only sequential reading is "lookup before any delete of that
+        # key", so the resumption the callback approved must happen; asked with cached=0 it must not.
+        if o.get("tcb"):
+            st("ticket_callbacks", o["tcb"])
+            if o["tcb_cached"] and not o["res"]:
+                ds = [d for d in del_by_name.get(o["tcb_key"], []) if d["c"] < o["r"] and d["r"] > o["c"]]
+                V("c20:ticket-callback-approved-but-not-resumed", "the ticket callback was told the key is cached and accepted it, yet the ticket was not honoured%s: %s" % (
+                    "; overlapping delete of that key SUCCEEDED: " + brief(ds[0]) if ds else "", brief(o)))
+            elif o["tcb_cached"]:
+                st("ticket_callback_approved_and_resumed", 1)
+                if any(d["c"] < o["r"] and d["r"] > o["c"] for d in del_ok_or_refused.get(o["tcb_key"], [])):
+                    st("ticket_callback_overlapped_by_delete", 1)
+            elif o["res"] and e and e[0] == "tk":
+                V("c20:resumed-with-key-the-callback-declined", brief(o))
         # ---- oracle 3 (per credential)
         if o["res"]:
             st("resumptions_checked", 1)
@@ -483,7 +512,9 @@ def check_history(h, res, replay, pairs, samples):
                 V("c20:validate-failed", "psX509AuthenticateCert of a valid chain against the shared CA list failed: " + brief(o))
         elif k in ("tkadd", "tkdel"):
             st("ticket_key_ops", 1)
-            if o["rc"] != o["expect"]:
+            if k == "tkdel" and o["expect"] == 0 and o["rc"] == -1 and any(y["c"] < o["r"] and y["r"] > o["c"] for y in approved.get(o["name"], [])):
+                st("ticket_key_delete_refused_key_in_use", 1)   # legal: a resumption that overlaps holds the key (inUse)
+            elif o["rc"] != o["expect"]:
                 V("c20:ticket-key-op-unexpected:" + k, "expected rc %d: %s" % (o["expect"], brief(o)))
         elif k == "crl":
             st("crl_ops", 1)
